@@ -1,6 +1,7 @@
 """rs2v unit Clir: the Cranelift IR that src/cranelift.rs builds, as Gallina terms over the IR value
 semantics of theories/ClirSem.v.  Builder code is straight-line: `let x = bcx.ins().OP(args)`,
 `bcx.use_var(self.V)`, helper methods of the compiler (inlined), `bcx.def_var`, `trapz`."""
+import os
 import rsparse as R
 from rsparse import Unsupported
 from rsemit import show
@@ -2416,6 +2417,41 @@ def gen_jitmem(src_dir):
                 term = '(c_ <- %s ;; if c_ then Ok true else %s)' % (c, term)
             out.append("(* true = Err: the caller's memory (address ptr, length len) is refused for a program needing size bytes *)\n"
                        "Definition gen_jit_mem_refuses_no_std (ptr len size : Z) : res bool :=\n  %s.\n\n" % term)
+    # the emit_bytes! macro: every byte of the image goes through it; in the writing pass it asserts that the write fits
+    import re as _re
+    text = open(os.path.join(src_dir, 'jit.rs')).read()
+    m0 = _re.search(r'macro_rules!\s*emit_bytes\s*\{', text)
+    if not m0:
+        raise Unsupported("emit_bytes! not found")
+    depth, j = 0, m0.end() - 1
+    while True:
+        if text[j] == '{':
+            depth += 1
+        elif text[j] == '}':
+            depth -= 1
+            if depth == 0:
+                break
+        j += 1
+    mbody = _re.sub(r'//[^\n]*', '', text[m0.end() - 1:j + 1])
+    flat = _re.sub(r'\s+', '', mbody)
+    tmpl = _re.compile(r'^\{\(\$mem:ident,\$data:tt,\$t:ty\)=>\{\{letsize=mem::size_of::<\$t>\(\)asusize;if\$mem\.write_enabled\{assert!\((?P<c>.*?)\);'
+                       r'unsafe\{letptr=\$mem\.contents\.as_mut_ptr\(\)\.add\(\$mem\.offset\)as\*mut\$t;ptr\.write_unaligned\(\$data\);\}\}\$mem\.offset\+=size;\}\};\}$')
+    mm = tmpl.match(flat)
+    if not mm:
+        raise Unsupported("emit_bytes! shape: %s" % flat[:200])
+    cond_m = _re.search(r'assert!\((.*?)\);', mbody, _re.S)
+    cond_txt = cond_m.group(1).replace('$mem.contents.len()', 'len').replace('$mem.offset', 'offset')
+    if '$' in cond_txt:
+        raise Unsupported("emit_bytes! assert: %s" % cond_txt)
+    ctoks = R.tokenize(cond_txt)
+    ce = R.Parser(ctoks).expr()
+    em = Emitter(consts, {'offset': ('offset', 'USZ'), 'size': ('size', 'USZ'), 'len': ('len', 'USZ')})
+    t3, ty3 = em.expr(ce)
+    if ty3 != 'BOOL':
+        raise Unsupported("emit_bytes! assert type")
+    out.append("(* emit_bytes!, writing pass: the assertion made before `size` bytes are written at `offset` into a buffer of `len` bytes\n"
+               "   (Panic / Err = the arithmetic of the condition itself overflows: the write does not happen either) *)\n"
+               "Definition gen_emit_bytes_fits (offset size len : Z) : res bool :=\n  %s.\n\n" % Emitter.wrap_binds(em.take_binds(), 'Ok %s' % t3))
     return ''.join(out)
 
 
